@@ -63,7 +63,7 @@ type devReq struct {
 	// RawUpdates: the update paths as structured elements (c16Canon), independent of any textual path form
 	RawUpdates []string `json:"rawUpdates,omitempty"`
 	SeenEl     uint64   `json:"seenEl,omitempty"`
-	Seen   []string `json:"seen,omitempty"`
+	Seen       []string `json:"seen,omitempty"`
 }
 
 func newSimDevice(id string, f *fuse) *simDevice {
